@@ -110,9 +110,12 @@ def instrument(p):
     return script, calls
 
 
-def run_single(csvpath_text, method="collect", n=None, *, policy=None, delimiter=",", quotechar='"'):
-    """run one csvpath; returns a dict with everything observable"""
+def run_single(csvpath_text, method="collect", n=None, *, policy=None, delimiter=",", quotechar='"', presets=None):
+    """run one csvpath; returns a dict with everything observable. `presets`: public attributes set on the fresh CsvPath
+    before the text is parsed (`OR`, `collect_when_not_matched`): modes given programmatically instead of in a comment"""
     p, rp = make_path(csvpath_text, delimiter=delimiter, quotechar=quotechar, policy=policy)
+    for k, v in (presets or {}).items():
+        setattr(p, k, v)
     out = {"method": method}
     try:
         p.parse(csvpath_text)
